@@ -182,14 +182,14 @@ theorem imports_suite (cls : Option (List Expr × List Expr)) (fb : Bool) (ys : 
     rw [this]
   rw [h1, split_eq_flatFrom_flatten, flatten_combineImport, ← split_eq_flatFrom_flatten]
 
-def suiteT (F : List Stmt → List Stmt) : SuiteT := { suiteF := fun _ b => F b }
-@[simp] theorem suiteT_suiteF (F : List Stmt → List Stmt) (m : Bool) (b : List Stmt) : (suiteT F).suiteF m b = F b := rfl
-@[simp] theorem suiteT_stmtF (F : List Stmt → List Stmt) (s : Stmt) : (suiteT F).stmtF s = s := rfl
-@[simp] theorem suiteT_funcBodyF (F : List Stmt → List Stmt) (b : List Stmt) : (suiteT F).funcBodyF b = b := rfl
+def suiteT (F : Bool → List Stmt → List Stmt) : SuiteT := { suiteF := F }
+@[simp] theorem suiteT_suiteF (F : Bool → List Stmt → List Stmt) (m : Bool) (b : List Stmt) : (suiteT F).suiteF m b = F m b := rfl
+@[simp] theorem suiteT_stmtF (F : Bool → List Stmt → List Stmt) (s : Stmt) : (suiteT F).stmtF s = s := rfl
+@[simp] theorem suiteT_funcBodyF (F : Bool → List Stmt → List Stmt) (b : List Stmt) : (suiteT F).funcBodyF b = b := rfl
 
 section AbsorbS
-variable (c : COpts) (F : List Stmt → List Stmt)
-  (hsuite : ∀ (cls : Option (List Expr × List Expr)) (fb : Bool) (ys : List Stmt), cSuite c fb (cBody c cls (F ys)) = cSuite c fb (cBody c cls ys))
+variable (c : COpts) (F : Bool → List Stmt → List Stmt)
+  (hsuite : ∀ (cls : Option (List Expr × List Expr)) (fb m : Bool) (ys : List Stmt), cSuite c fb (cBody c cls (F m ys)) = cSuite c fb (cBody c cls ys))
 include hsuite
 
 
@@ -219,11 +219,11 @@ theorem sAbsorbStmt : (s : Stmt) → (cls : Option (List Expr × List Expr)) →
   | .try_ false body hs orelse fin, cls => by
     simp only [travStmt, suiteT_suiteF, suiteT_stmtF, suiteT_funcBodyF, cStmt]
     rw [hsuite cls, sAbsorbBody body cls, sAbsorbHandlers hs cls]
-    have ho : cSuite c false (cBody c cls (if orelse.isEmpty then [] else F (travBody (suiteT F) orelse))) = cSuite c false (cBody c cls orelse) := by
+    have ho : cSuite c false (cBody c cls (if orelse.isEmpty then [] else F false (travBody (suiteT F) orelse))) = cSuite c false (cBody c cls orelse) := by
       cases orelse with
       | nil => simp [cBody]
       | cons o os => simp only [List.isEmpty_cons, Bool.false_eq_true, if_false]; rw [hsuite cls, sAbsorbBody (o :: os) cls]
-    have hfin : cSuite c false (cBody c cls (if fin.isEmpty then [] else F (travBody (suiteT F) fin))) = cSuite c false (cBody c cls fin) := by
+    have hfin : cSuite c false (cBody c cls (if fin.isEmpty then [] else F false (travBody (suiteT F) fin))) = cSuite c false (cBody c cls fin) := by
       cases fin with
       | nil => simp [cBody]
       | cons o os => simp only [List.isEmpty_cons, Bool.false_eq_true, if_false]; rw [hsuite cls, sAbsorbBody (o :: os) cls]
@@ -264,9 +264,18 @@ end AbsorbS
 /-- combine_imports: output = input modulo splitting import statements into single-name imports (no alias lost, added or moved) -/
 theorem combineImports_canon (m : Module) :
     canonModule ImpOnly (travModule combineImports m) = canonModule ImpOnly m := by
-  have : combineImports = suiteT (fun b => combineFrom (combineImport b)) := rfl
+  have : combineImports = suiteT (fun _ b => combineFrom (combineImport b)) := rfl
   rw [this, canonModule_simple ImpOnly rfl rfl, canonModule_simple ImpOnly rfl rfl]
   simp only [travModule, suiteT_suiteF]
-  rw [imports_suite none false, sAbsorbBody ImpOnly (fun b => combineFrom (combineImport b)) (fun cls fb ys => imports_suite cls fb ys) m.body none]
+  rw [imports_suite none false, sAbsorbBody ImpOnly (fun _ b => combineFrom (combineImport b)) (fun cls fb _ ys => imports_suite cls fb ys) m.body none]
+
+/-- module-level absorption for a transform that only rewrites suites -/
+theorem canon_suiteT (c : COpts) (F : Bool → List Stmt → List Stmt)
+    (hsuite : ∀ (cls : Option (List Expr × List Expr)) (fb m : Bool) (ys : List Stmt), cSuite c fb (cBody c cls (F m ys)) = cSuite c fb (cBody c cls ys))
+    (hl : (c.literals && c.keepModuleDoc) = false) (hp : c.posargs = false) (m : Module) :
+    canonModule c (travModule (suiteT F) m) = canonModule c m := by
+  rw [canonModule_simple c hl hp, canonModule_simple c hl hp]
+  simp only [travModule, suiteT_suiteF]
+  rw [hsuite none false true, sAbsorbBody c F hsuite m.body none]
 
 end PMV.Transforms
